@@ -785,6 +785,54 @@ def copied_pointers(ctx):
                     ctx.event("copied_pointers_checked")
 
 
+def native_orders(ctx):
+    """The native byte order codes `=` and `@` (whatever the host's order is): a pointer's value is the unsigned integer
+    stored in host order, it dereferences to the target at that address and dumps back unchanged -- single pointers,
+    pointers to pointers, fixed and null-terminated arrays of pointers, both readers.  (All members have the pointer's
+    width, so the native alignment of `@` has nothing to pad.)"""
+    import io
+    import sys
+
+    bo = sys.byteorder
+    for endian in "=@":
+        for ptr, w in (("uint8", 1), ("uint16", 2), ("uint32", 4), ("uint64", 8)):
+            for compiled in (True, False):
+                text = "struct T { uint16 *p; uint16 **pp; uint16 *a[2]; uint16 *z[]; };"
+                n_ptr = 7  # p, pp, a0, a1, z0, z1, terminator
+                base = n_ptr * w
+                # targets: five uint16 values behind the structure, then one pointer cell for pp
+                tvals = [0x1234, 0xA1B2, 0x00FF, 0x8001, 0x7E7E]
+                taddr = [base + 2 * i for i in range(5)]
+                cell = base + 10
+                if cell + w > (1 << (8 * w)) - 1 and w == 1:
+                    pass
+                addrs = [taddr[0], cell, taddr[1], taddr[2], taddr[3], taddr[4], 0]
+                if max(addrs) >= 1 << (8 * w):
+                    continue
+                data = b"".join(a.to_bytes(w, bo) for a in addrs) + b"".join(v.to_bytes(2, bo) for v in tvals) + taddr[2].to_bytes(w, bo) + b"\xEE" * 4
+                ctx.evaluation(("native-orders", endian, ptr, compiled))
+                ctx.cell("native-byte-orders")
+                det = {"text": text, "endian": endian, "ptr": ptr, "compiled": compiled, "data": data.hex(), "workload": "native-orders"}
+                try:
+                    cs = lib.load(text, endian, False, compiled, ptr)
+                    st = io.BytesIO(data)
+                    o = cs.T(st)
+                    got = {"values": [int(o.p), int(o.pp), int(o.a[0]), int(o.a[1])] + [int(x) for x in o.z],
+                           "deref": [int(o.p.dereference()), int(o.pp.dereference()), int(o.pp.dereference().dereference()),
+                                     int(o.a[0].dereference()), int(o.a[1].dereference())] + [int(x.dereference()) for x in o.z],
+                           "tell": st.tell(), "dump": o.dumps().hex(), "size": len(cs.T.fields["p"].type)}
+                    want = {"values": addrs[:6], "deref": [tvals[0], taddr[2], tvals[2], tvals[1], tvals[2], tvals[3], tvals[4]],
+                            "tell": base, "dump": data[:base].hex(), "size": w}
+                except Exception as e:  # noqa: BLE001
+                    ctx.violation("native", f"native-order-pointer-structure-raises:{type(e).__name__}", dict(det, error=lib.exc_sig(e)))
+                    continue
+                if got != want:
+                    ctx.violation("native", "pointer-under-a-native-byte-order-code-differs-from-host-order",
+                                  dict(det, got=repr(got), want=repr(want)))
+                else:
+                    ctx.event("native_order_pointers_checked")
+
+
 def run(ctx):
     if ctx.shard == 0:
         union_pointers(ctx)
@@ -798,6 +846,8 @@ def run(ctx):
         reconfigured_width(ctx, ctx.rng("reconfigured"))
     if ctx.shard % 8 == 2:
         context_targets(ctx, ctx.rng("context-targets"))
+    if ctx.shard % 8 == 6:
+        native_orders(ctx)
     combos = [(k, p, e, a, c) for k in ("scalar", "float", "char", "wchar", "struct", "ptrptr") for p in PTR_TYPES
               for e in ("<", ">") for a in (False, True) for c in (True, False)]
     reps = 1 if not ctx.thorough else 12
@@ -812,6 +862,10 @@ def run(ctx):
 
 
 def replay(ctx, detail):
+    if detail.get("workload") == "native-orders":
+        print(detail)
+        native_orders(ctx)
+        return
     if detail.get("workload") == "pointers-in-array-elements":
         print(detail)
         pointers_in_array_elements(ctx)
